@@ -263,8 +263,11 @@ def step(ctx, d, model, op, case, agreement=False):
             ctx.fail(site + '/exception-class', case(), f'{op!r}: raised {type(raised).__name__}, documented {rejected.exc}')
         ctx.check(real_triple(d) == before_triple, site + '/changed-on-reject', case,
                   lambda: f'{op!r} raised {type(raised).__name__} but changed the definition to {real_triple(d)!r}')
-        ctx.check(internal(d) == before_internal, site + '/hidden-change-on-reject', case,
-                  lambda: f'{op!r} raised {type(raised).__name__} but changed hidden state')
+        # Hidden state is not part of the statement: a difference in private attributes is only *counted*; what the
+        # statement forbids - residue that reappears later - is what the follow-up operations of the callers observe
+        # (every probing operation after a rejected call in C13's exhaustive part, further rules in the machines).
+        if internal(d) != before_internal:
+            ctx.count('hidden_state_differs_after_reject')
         return model
     if raised is not None:
         ctx.fail(site + '/raises:' + type(raised).__name__, case(), f'{op!r} is valid for the model but raised '
@@ -272,7 +275,7 @@ def step(ctx, d, model, op, case, agreement=False):
     if want == 'self':
         ctx.check(got == 'self', site + '/return', case, f'{op!r} did not return the definition itself')
     else:
-        ctx.check(got == want and type(got) is type(want), site + '/return', case,
+        ctx.check(got == want and isinstance(got, type(want)), site + '/return', case,
                   lambda: f'{op!r} returned {got!r}, model {want!r}')
     invariants(ctx, d, m2, site, case, op)
     if agreement:
